@@ -31,6 +31,8 @@ const (
 	ntpMaxNs = 2085978496 * 1000000000  // 2036-02-07 06:28:16: NTP era 0 ends
 )
 
+var floatProbe int
+
 func ntpRun(c *corr.Ctx, b *NtpBatch, name string) {
 	cs := corr.Case{Name: name, Nontrivial: len(b.Instants)+len(b.Values) > 0}
 	viol := func(clause, key, detail string, in any) {
@@ -62,6 +64,14 @@ func ntpRun(c *corr.Ctx, b *NtpBatch, name string) {
 				viol("Encode is the nearest 32.32 fixed-point value", "ntp-encode-nearest", fmt.Sprintf("t=%d ns: v=%d", ns, v),
 					&NtpBatch{Kind: "ntp", Instants: []int64{ns}})
 			}
+			if floatProbe%4 == 0 {
+				// the float path itself, on the binary64 model (Ntp.encFracFloat)
+				n := (uint64(ns) + 2208988800*1000000000) % 1000000000
+				cs.Ops = append(cs.Ops, "time fracfloat "+strconv.FormatUint(n, 10))
+				cs.Impl = append(cs.Impl, strconv.FormatUint(v&0xFFFFFFFF, 10))
+				c.Dist("ntp:float-path-compared-with-binary64-model")
+			}
+			floatProbe++
 			if ns >= 0 {
 				c.Dist("ntp:instant-1970-2036")
 			} else {
